@@ -141,7 +141,11 @@ class LaTeXToPDF(object):
             outputc = context["output"]
             outputc["filetype"] = "pdf"
             texfile_name = data
-            data = texfile_name.replace(".tex", ".pdf")
+            if texfile_name.endswith(".tex"):
+                # only the extension is replaced
+                data = texfile_name[:-4] + ".pdf"
+            else:
+                data = texfile_name.replace(".tex", ".pdf")
             output_directory = os.path.dirname(texfile_name)
 
             try:
